@@ -192,6 +192,7 @@ def run(ctx):
             ctx.tie_broken("correspondence: the model does not round-trip a value the implementation round-trips",
                            "%s\nimpl: %s\nmodel: %s" % (line[:3000], li[:1500], lm[:1500]))
     nreq = requests_stream(ctx, exe, thorough)
+    ngiant = giant(ctx, exe)
     minph = min(len(v) for v in phases.values())
     ntypes = len(set(ty for ty, _ in phases))
     ctx.extra["phases"] = {"pairs (type, api)": len(phases), "min distinct prefix phases mod 8 per pair": minph,
@@ -206,11 +207,48 @@ def run(ctx):
                 "containers in one array/dict, nesting at the limits, typed in both byte orders plus one Param flavour. Stream 3 (requests, %d cases): "
                 "get::<T>() on a body written as another Rust type S - the same type in another flavour is read, another signature is answered with "
                 "WrongSignature and nothing is consumed (in particular the crate's two Variant types asked for on bodies without a variant). "
+                "Every tuple arity 1..4 (top level and as array element) is asked on bodies holding a tuple with one more / one less field (written through "
+                "the dynamic API when no catalogue type has that signature). Stream 4 (giant, %d cases): arrays with exactly 2^26 bytes of content and "
+                "16..50 MiB, made inside the harness (ay, at, as; typed and Param; both byte orders), predicate only. "
                 "non-trivial = prefix > 0 or the type has a container or text leaf; distinct = distinct case lines"
-                % (ntypes, len(wg.catalogue()), len(wg.catalogue_marshal_only()), 48 if thorough else 6, 24 if thorough else 4, minph, nbig, nreq))
+                % (ntypes, len(wg.catalogue()), len(wg.catalogue_marshal_only()), 48 if thorough else 6, 24 if thorough else 4, minph, nbig, nreq, ngiant))
     want = 8 if thorough else 2
     if minph < want:
         ctx.tie_broken("generator: a (type, API) pair saw fewer than %d prefix phases" % want, str(minph))
+
+
+def giant(ctx, exe):
+    """Arrays with exactly 2^26 bytes of content (the protocol maximum) and 16..50 MiB (every byte of the length field in use), made
+    inside the harness from a descriptor (XR, harness/src/bin/wire.rs giant()): pushed through push_param(&[u8] / &[u64] / &[&str]) or
+    push_old_param(Param array of strings), followed by the trailer byte, validated and read back with get::<&[u8] / Vec<u64> /
+    Vec<&str>>() / get_param(). The property predicate only; no extracted function runs on 64 MiB (model-skipped)."""
+    r = ctx.sub_rng("c01-giant")
+    cases = [c for c in wg.giant_lines(r, "XR") if wg.giant_spec(c[1], c[2])[0] <= wg.MAX_ARRAY]
+    ok, out, err = wg.run_each(exe, [c[4] for c in cases], robust=True, chunk=2)
+    if not ok:
+        ctx.tie_broken("wire harness crashed (giant stream)", err)
+        return 0
+    for (cls, shape, be, api, line), o in zip(cases, out):
+        fi = fields(o)
+        ctx.case(("giant", line), nontrivial=True, sample={"case": line, "impl": o[:160]} if shape[0] == "as" and be and api == "param" else None)
+        ctx.count("giant:%s:%s" % (cls, "typed/memcpy" if api == "typed" and (shape[0] == "ay" or (shape[0] == "at" and not be)) else api + "/element-wise"))
+        ctx.count("giant:model-skipped")
+        ctx.count("bo:" + ("be" if be else "le"))
+        why = None
+        if fi["res"] == "pusherr":
+            why = "an encodable value was refused by push"
+        elif fi["res"] != "ok":
+            why = "the value could not be read back (%s)" % fi["res"]
+        elif fi.get("validate") != "true":
+            why = "the body does not validate"
+        elif fi.get("trailer") != "ok" or fi.get("left") != "0":
+            why = "reading consumed the wrong number of bytes or signature characters (the following value is affected)"
+        elif fi.get("same") != "true":
+            why = "the value read back differs from the value written"
+        if why:
+            ctx.disagreements_checked += 1
+            ctx.violation(why, {"line": line, "impl": o[:300], "model": "not run", "stream": "giant", "class": cls})
+    return len(cases)
 
 
 def requests_stream(ctx, exe, thorough):
@@ -331,6 +369,15 @@ def replay(ctx, body):
         print("then   :", d["impl"][:300])
         print("REPRODUCED" if out[0] == d["impl"] else "not reproduced")
         return 1 if out[0] == d["impl"] else 0
+    if d.get("stream") == "giant":
+        _, out, _ = vlib.run_lines(exe, [], [line])
+        print("case:", line)
+        print("now :", out[0][:300])
+        print("then:", d["impl"])
+        f = fields(out[0])
+        bad = not (f["res"] == "ok" and f.get("validate") == "true" and f.get("trailer") == "ok" and f.get("left") == "0" and f.get("same") == "true")
+        print("REPRODUCED" if bad else "not reproduced")
+        return 1 if bad else 0
     if "...(" in line and d.get("stream") == "big":
         # the line was too long to store: regenerate the big stream from the seed and take the one with this beginning
         head = line.split(" ...(")[0]
